@@ -3,6 +3,7 @@ from props._keys_common import N, G, pmul, sec1, hash160, rnd_bytes, keys
 
 ID = "C12"
 LEVEL = "proof"
+EXTRA_TARGETS = ["Proofs/ConstsTie.vo"]   # constants regenerated from the Rust source
 RULE = ("keys {1, 2, n-1, n-2, (n-1)/2, random, leading-zero} x both compression forms x prefixes 00 / 6f / random; message lengths "
         "0, 1, 2, 55, 56, 64, 100, 252, 253, 254, 300, 1000 and (descriptors) 65535, 65536 (quick: sign only), 70000 (thorough), "
         "through sign, verify against the key's own address, verify after the 65-byte compact round trip, and plain ECDSA "
